@@ -454,6 +454,14 @@ def flow(prop_id, props_file, tier, seed, corr_fn, assumptions, partial_note=Non
     lines = []
     for fid, what in res.known_confirmed:
         lines.append("KNOWN-FINDING: property=%s %s (%s)" % (prop_id, what, fid))
+    # a read that panicked on the implementation where the model (for which the panic is proved unreachable or
+    # which simply did not) returned something: that input IS a failing input of every property about reads
+    for d in res.disagreements:
+        impl = d.get("impl")
+        if isinstance(impl, str) and "O=panic" in impl and "O=panic" not in str(d.get("model")):
+            res.oracle_failures.append({"stream": d.get("stream"), "case": d.get("case"), "keys": d.get("keys"),
+                                        "why": "panic: the implementation's read panicked on this input (the model returns %s)" %
+                                               str(d.get("model"))[:120]})
     new_fail = [f for f in res.oracle_failures if not f.get("known")]
     nviol = 0
     if new_fail:
